@@ -612,6 +612,13 @@ class Engine:
             return z3.BoolVal(False)
         if isinstance(a, VClass):
             return z3.BoolVal(a.name == b.name)           # class objects: identity
+        if isinstance(a, (VMap, VObj)) and isinstance(b, (VMap, VObj)):
+            # two heap objects of repository classes: identical objects are equal; whether two DISTINCT objects compare equal is
+            # whatever their __eq__ says - an uninterpreted, symmetric relation on the addresses (sound for proving: both outcomes)
+            if a.addr == b.addr:
+                return z3.BoolVal(True)
+            lo, hi = sorted((a.addr, b.addr))
+            return z3.Function("heap_objects_compare_equal", I, I, B)(z3.IntVal(lo), z3.IntVal(hi))
         raise Undecided(f"== between {type(a).__name__} and {type(b).__name__}")
 
     def identical(self, a: V, b: V, st: State):
